@@ -14,6 +14,13 @@ def main():
             prefixes.update(getattr(importlib.import_module("props." + pid), "COQ_PREFIXES", [pid]))
         except Exception:
             pass
+    for pid in claimed:
+        try:
+            m = importlib.import_module("props." + pid)
+            if hasattr(m, "pre_setup"):
+                m.pre_setup()
+        except Exception as e:
+            print("pre_setup of %s failed: %r" % (pid, e))
     bad = build.hygiene(sorted(prefixes))
     if bad:
         print("hygiene: forbidden constructs:", bad); return 1
